@@ -95,6 +95,11 @@ func drawUniverse(ch core.Chooser) (uint32, []string) {
 }
 
 func (s *fsess) open() error {
+	// see hist.reseed: a different value for freshly drawn hash seeds in this session
+	if s.step > 0 && core.Pct(s.ch, "reseed", 30) {
+		pinSeed(uint32(s.ch.Int("newseed", 0, 1<<30)))
+		s.st.Count("opens_with_changed_seed_override", 1)
+	}
 	s.fs.Mark("OB")
 	dbx.ResetLog()
 	db, err := dbx.Open("db", s.cfg, s.fs)
